@@ -286,6 +286,15 @@ class Ctx(object):
                     self._record(self.hung)
                     return
                 if isinstance(e, hypothesis.errors.Flaky):
+                    # the case failed once and passed when Hypothesis replayed it: state outside the case (a class-level table, a
+                    # module cache) changed in between.  Report the violation that was seen, with its own case, and say so.
+                    inner = [x for x in getattr(e, "exceptions", ()) if isinstance(x, Violation)]
+                    if inner:
+                        v = inner[0]
+                        self._record(Violation(v.sig, v.check, v.case, v.detail + "  [seen once; did not fail again when the same case "
+                                               "was run a second time in this process: it depends on state left behind by earlier cases]"))
+                        self.suppressed.add(v.sig)
+                        continue
                     self._record(Violation("%s/%s/flaky" % (self.pid, check_name), check_name, None, repr(e)))
                     return
                 raise
